@@ -3,6 +3,9 @@ import BobEM.Props.C05
 import BobEM.Props.C08
 import BobEM.Props.C11
 import BobEM.Lemmas.KMeansDescent
+import BobEM.Model.IVector
+import BobEM.Lemmas.FATrainIdent
+import BobEM.Lemmas.IVectorIdent
 
 /-!
 # C15 — Training is equivariant, scoring invariant, under affine feature rescaling/shift
@@ -262,3 +265,510 @@ theorem C15_kmeans_rotation (Q : Matrix (Fin D) (Fin D) ℝ) (hQ : Qᵀ * Q = 1)
     intro j; rw [Matrix.mulVec_sub]; rfl
   simp only [hsub, h]
   simp [Pi.sub_apply]
+
+/-! ### ISV / JFA enrolment and i-vectors under a per-feature rescaling and shift -/
+
+section EnrolAffine
+variable {rU rV : ℕ}
+
+theorem prodN_aff {r : ℕ} (a b : Fin D → ℝ) (ha : ∀ d, a d ≠ 0) (M : FA.Model C D rU rV ℝ) (hs : ∀ c d, M.s c d ≠ 0)
+    (L : Fin C → Fin D → Fin r → ℝ) (n : Fin C → ℝ) :
+    FA.prodN (affM a b M) (fun c d k => a d * L c d k) n = FA.prodN M L n := by
+  funext k k'
+  simp only [FA.prodN, sumFin_eq, affM]
+  refine Finset.sum_congr rfl fun c _ => ?_
+  congr 1
+  refine Finset.sum_congr rfl fun d _ => ?_
+  have := ha d; have := hs c d
+  field_simp
+
+theorem projT_aff {r : ℕ} (a b : Fin D → ℝ) (ha : ∀ d, a d ≠ 0) (M : FA.Model C D rU rV ℝ) (hs : ∀ c d, M.s c d ≠ 0)
+    (L : Fin C → Fin D → Fin r → ℝ) (g : Fin C → Fin D → ℝ) :
+    FA.projT (affM a b M) (fun c d k => a d * L c d k) (fun c d => a d * g c d) = FA.projT M L g := by
+  funext k
+  simp only [FA.projT, sumFin_eq, affM]
+  refine Finset.sum_congr rfl fun c _ => Finset.sum_congr rfl fun d _ => ?_
+  have := ha d; have := hs c d
+  field_simp
+
+theorem apply_aff {r : ℕ} (a : Fin D → ℝ) (L : Fin C → Fin D → Fin r → ℝ) (x : Fin r → ℝ) (c : Fin C) (d : Fin D) :
+    FA.apply (fun c d k => a d * L c d k) x c d = a d * FA.apply L x c d := by
+  simp only [FA.apply, sumFin_eq, Finset.mul_sum]
+  exact Finset.sum_congr rfl fun k _ => by ring
+
+theorem nAcc_aff (a b : Fin D → ℝ) (sts : List (FA.St C D ℝ)) : FA.nAcc (sts.map (affSt a b)) = FA.nAcc sts := by
+  funext c; simp [FA.nAcc, affSt, List.map_map, Function.comp_def]
+
+theorem fAcc_aff (a b : Fin D → ℝ) (sts : List (FA.St C D ℝ)) (c : Fin C) (d : Fin D) :
+    FA.fAcc (sts.map (affSt a b)) c d = a d * FA.fAcc sts c d + b d * FA.nAcc sts c := by
+  simp only [FA.fAcc, FA.nAcc, affSt, lsum_eq, List.map_map, Function.comp_def]
+  exact sum_lin sts (fun s => s.f c d) (fun s => s.n c) (a d) (b d)
+
+theorem uxTerm_aff (a b : Fin D → ℝ) (M : FA.Model C D rU rV ℝ) (sts : List (FA.St C D ℝ)) (xs : List (Fin rU → ℝ))
+    (c : Fin C) (d : Fin D) :
+    FA.uxTerm (affM a b M) (sts.map (affSt a b)) xs c d = a d * FA.uxTerm M sts xs c d := by
+  simp only [FA.uxTerm, lsum_eq, List.zip_map_left, List.map_map, Function.comp_def]
+  have hU : (affM a b M).U = fun c d k => a d * M.U c d k := rfl
+  simp only [hU, apply_aff, affSt, Prod.map]
+  rw [← List.sum_map_mul_left]
+  congr 1
+  apply List.map_congr_left
+  intro p _
+  simp only [id]; ring
+
+/-- the channel-factor update of a session is invariant -/
+theorem latentX_aff (a b : Fin D → ℝ) (ha : ∀ d, a d ≠ 0) (M : FA.Model C D rU rV ℝ) (hs : ∀ c d, M.s c d ≠ 0)
+    (st : FA.St C D ℝ) (y : Fin rV → ℝ) (z : Fin C → Fin D → ℝ) :
+    FA.latentX (affM a b M) (affSt a b st) y z = FA.latentX M st y z := by
+  have hU : (affM a b M).U = fun c d k => a d * M.U c d k := rfl
+  have hV : (affM a b M).V = fun c d k => a d * M.V c d k := rfl
+  have hg : (fun c d => (affSt a b st).f c d - (affSt a b st).n c * ((affM a b M).m c d + (affM a b M).Dd c d * z c d)
+        - (affSt a b st).n c * FA.apply (affM a b M).V y c d)
+      = fun c d => a d * (st.f c d - st.n c * (M.m c d + M.Dd c d * z c d) - st.n c * FA.apply M.V y c d) := by
+    funext c d
+    rw [hV, apply_aff]
+    simp only [affSt, affM]; ring
+  simp only [FA.latentX, FA.idPlusInv, hg]
+  rw [hU, prodN_aff a b ha M hs, projT_aff a b ha M hs]
+  rfl
+
+/-- the speaker-factor update is invariant -/
+theorem updateY_aff (a b : Fin D → ℝ) (ha : ∀ d, a d ≠ 0) (M : FA.Model C D rU rV ℝ) (hs : ∀ c d, M.s c d ≠ 0)
+    (sts : List (FA.St C D ℝ)) (xs : List (Fin rU → ℝ)) (z : Fin C → Fin D → ℝ) :
+    FA.updateY (affM a b M) (sts.map (affSt a b)) xs z = FA.updateY M sts xs z := by
+  have hV : (affM a b M).V = fun c d k => a d * M.V c d k := rfl
+  have hg : (fun c d => FA.fAcc (sts.map (affSt a b)) c d
+        - FA.nAcc sts c * ((affM a b M).m c d + 1 * ((affM a b M).Dd c d * z c d))
+        - FA.uxTerm (affM a b M) (sts.map (affSt a b)) xs c d)
+      = fun c d => a d * (FA.fAcc sts c d - FA.nAcc sts c * (M.m c d + 1 * (M.Dd c d * z c d)) - FA.uxTerm M sts xs c d) := by
+    funext c d
+    rw [fAcc_aff, uxTerm_aff]
+    simp only [affM]; ring
+  simp only [FA.updateY, FA.updateYG, FA.idPlusInv, nAcc_aff]
+  rw [hg, hV, prodN_aff a b ha M hs, projT_aff a b ha M hs]
+
+/-- the residual-offset update is invariant -/
+theorem updateZ_aff (a b : Fin D → ℝ) (ha : ∀ d, a d ≠ 0) (M : FA.Model C D rU rV ℝ) (hs : ∀ c d, M.s c d ≠ 0)
+    (sts : List (FA.St C D ℝ)) (xs : List (Fin rU → ℝ)) (y : Fin rV → ℝ) :
+    FA.updateZ (affM a b M) (sts.map (affSt a b)) xs y = FA.updateZ M sts xs y := by
+  funext c d
+  have hV : (affM a b M).V = fun c d k => a d * M.V c d k := rfl
+  simp only [FA.updateZ]
+  rw [fAcc_aff, nAcc_aff, uxTerm_aff, hV, apply_aff]
+  simp only [affM]
+  have := ha d; have := hs c d
+  by_cases hden : 1 + M.Dd c d / M.s c d * M.Dd c d * FA.nAcc sts c = 0
+  · have h' : 1 + a d * M.Dd c d / (a d * a d * M.s c d) * (a d * M.Dd c d) * FA.nAcc sts c = 0 := by
+      rw [← hden]; field_simp
+    simp [hden, h']
+  · have h' : 1 + a d * M.Dd c d / (a d * a d * M.s c d) * (a d * M.Dd c d) * FA.nAcc sts c
+        = 1 + M.Dd c d / M.s c d * M.Dd c d * FA.nAcc sts c := by field_simp
+    rw [h']
+    field_simp
+    ring
+
+/-- **ISV / JFA enrolment is invariant**: after any number of iterations the latent factors
+`(y, x_1 … x_H, z)` of the transformed problem (features `a ⊙ x + b`, UBM means / variances, `U`, `V`,
+`D` transformed accordingly) are those of the original one -/
+theorem C15_enroll_invariant (a b : Fin D → ℝ) (ha : ∀ d, a d ≠ 0) (M : FA.Model C D rU rV ℝ) (hs : ∀ c d, M.s c d ≠ 0)
+    (sts : List (FA.St C D ℝ)) (k : ℕ) :
+    FA.enroll (affM a b M) (sts.map (affSt a b)) k = FA.enroll M sts k := by
+  induction k with
+  | zero => simp [FA.enroll]
+  | succ k ih =>
+    simp only [FA.enroll, FA.sweep, ih]
+    have hy := updateY_aff a b ha M hs sts (FA.enroll M sts k).xs (FA.enroll M sts k).z
+    rw [hy]
+    have hx : ((sts.map (affSt a b)).map fun s => FA.latentX (affM a b M) s (FA.updateY M sts (FA.enroll M sts k).xs (FA.enroll M sts k).z) (FA.enroll M sts k).z)
+        = sts.map fun s => FA.latentX M s (FA.updateY M sts (FA.enroll M sts k).xs (FA.enroll M sts k).z) (FA.enroll M sts k).z := by
+      rw [List.map_map]
+      apply List.map_congr_left
+      intro s _
+      exact latentX_aff a b ha M hs s _ _
+    rw [hx, updateZ_aff a b ha M hs]
+end EnrolAffine
+
+/-- **i-vectors are invariant**: with `T` rows and `σ` transformed like the features, the posterior
+mean of the total-variability factor of a statistic is unchanged -/
+theorem C15_ivector_invariant {R : ℕ} (a b : Fin D → ℝ) (ha : ∀ d, a d ≠ 0) (m : IV.Machine C D R ℝ) (hs : ∀ c d, m.sigma c d ≠ 0)
+    (st : IV.GStat C D ℝ) (s' : Fin C → Fin D → ℝ) :
+    IV.project ⟨fun c d => a d * m.ubmMeans c d + b d, fun c d t => a d * m.T c d t, fun c d => a d * a d * m.sigma c d⟩
+        ⟨st.n, fun c d => a d * st.f c d + b d * st.n c, s'⟩
+      = IV.project m st := by
+  have hP : IV.precision (⟨fun c d => a d * m.ubmMeans c d + b d, fun c d t => a d * m.T c d t, fun c d => a d * a d * m.sigma c d⟩ : IV.Machine C D R ℝ) st.n
+      = IV.precision m st.n := by
+    funext t u
+    simp only [IV.precision, sumFin_eq]
+    congr 1
+    refine Finset.sum_congr rfl fun c _ => ?_
+    congr 1
+    refine Finset.sum_congr rfl fun d _ => ?_
+    have := ha d; have := hs c d
+    field_simp
+  have hR : IV.rhs (⟨fun c d => a d * m.ubmMeans c d + b d, fun c d t => a d * m.T c d t, fun c d => a d * a d * m.sigma c d⟩ : IV.Machine C D R ℝ)
+      ⟨st.n, fun c d => a d * st.f c d + b d * st.n c, s'⟩ = IV.rhs m st := by
+    funext t
+    simp only [IV.rhs, sumFin_eq]
+    refine Finset.sum_congr rfl fun c _ => Finset.sum_congr rfl fun d _ => ?_
+    have := ha d; have := hs c d
+    field_simp
+    ring
+  simp only [IV.project, hP, hR]
+
+/-! ### ISV / JFA *training* follows the features -/
+
+section TrainAffine
+open BobEM.FA
+variable {rU rV : ℕ}
+
+theorem materialize_eq (M : Model C D rU rV ℝ) : materialize M = M := by
+  cases M
+  simp only [materialize, Model.mk.injEq, true_and]
+  refine ⟨?_, ?_, ?_⟩
+  · funext c d a; simp
+  · funext c d a; simp
+  · funext c d; simp
+
+theorem iter_congr {β : Type} (f g : β → β) (h : ∀ x, f x = g x) (k : ℕ) (x : β) : iter f k x = iter g k x := by
+  induction k generalizing x with
+  | zero => rfl
+  | succ k ih => simp only [iter, h, ih]
+
+/-- commuting a map through an iteration -/
+theorem iter_comm {β : Type} (f g : β → β) (φ : β → β) (h : ∀ x, f (φ x) = φ (g x)) (k : ℕ) (x : β) :
+    iter f k (φ x) = φ (iter g k x) := by
+  induction k generalizing x with
+  | zero => rfl
+  | succ k ih => simp only [iter, h, ih]
+
+def affCl (a b : Fin D → ℝ) (cl : List (List (St C D ℝ))) : List (List (St C D ℝ)) := cl.map fun sts => sts.map (affSt a b)
+
+/-- accumulators whose `a2` rows are scaled like the features -/
+def accScale {r : ℕ} (a : Fin D → ℝ) (x : Acc C D r ℝ) : Acc C D r ℝ := ⟨x.a1, fun c d k => a d * x.a2 c d k⟩
+
+theorem Acc_sum_scale {r : ℕ} (a : Fin D → ℝ) (l : List (Acc C D r ℝ)) : Acc.sum (l.map (accScale a)) = accScale a (Acc.sum l) := by
+  have e1 : ∀ c k k', (Acc.sum (l.map (accScale a))).a1 c k k' = (accScale a (Acc.sum l)).a1 c k k' := by
+    intro c k k'
+    simp only [accSum_a1, accScale, List.map_map, Function.comp_def]
+  have e2 : ∀ c d k, (Acc.sum (l.map (accScale a))).a2 c d k = (accScale a (Acc.sum l)).a2 c d k := by
+    intro c d k
+    simp only [accSum_a2, accScale, List.map_map, Function.comp_def, List.sum_map_mul_left]
+  cases h1 : Acc.sum (l.map (accScale a)); cases h2 : accScale a (Acc.sum l)
+  simp only [Acc.mk.injEq]
+  rw [h1] at e1 e2; rw [h2] at e1 e2
+  exact ⟨funext fun c => funext fun k => funext fun k' => e1 c k k', funext fun c => funext fun d => funext fun k => e2 c d k⟩
+
+theorem solveLoading_scale {r : ℕ} (a : Fin D → ℝ) (x : Acc C D r ℝ) :
+    solveLoading (accScale a x) = fun c d k => a d * solveLoading x c d k := by
+  funext c d k
+  simp only [solveLoading, accScale, sumFin_eq, Finset.mul_sum]
+  exact Finset.sum_congr rfl fun j _ => by ring
+
+theorem zerosX_len_map (a b : Fin D → ℝ) (sts : List (St C D ℝ)) : zerosX (rU := rU) (sts.map (affSt a b)).length = zerosX sts.length := by
+  simp
+
+theorem fnY_aff (a b : Fin D → ℝ) (M : Model C D rU rV ℝ) (sts : List (St C D ℝ)) (xs : List (Fin rU → ℝ)) (z : Fin C → Fin D → ℝ)
+    (c : Fin C) (d : Fin D) :
+    fnY (affM a b M) (sts.map (affSt a b)) xs z c d = a d * fnY M sts xs z c d := by
+  simp only [fnY]
+  rw [fAcc_aff, nAcc_aff, uxTerm_aff]
+  simp only [affM]; ring
+
+theorem eStepV_aff (a b : Fin D → ℝ) (ha : ∀ d, a d ≠ 0) (M : Model C D rU rV ℝ) (hs : ∀ c d, M.s c d ≠ 0) (sts : List (St C D ℝ)) :
+    eStepV (affM a b M) (sts.map (affSt a b)) = accScale a (eStepV M sts) := by
+  have hV : (affM a b M).V = fun c d k => a d * M.V c d k := rfl
+  simp only [eStepV, accScale, List.length_map, updateY_aff a b ha M hs, nAcc_aff, FA.idPlusInv]
+  rw [hV, prodN_aff a b ha M hs]
+  simp only [fnY_aff]
+  congr 1
+  funext c d k; ring
+
+theorem stepV_aff (a b : Fin D → ℝ) (ha : ∀ d, a d ≠ 0) (M : Model C D rU rV ℝ) (hs : ∀ c d, M.s c d ≠ 0) (cl : List (List (St C D ℝ))) :
+    stepV (affM a b M) (affCl a b cl) = affM a b (stepV M cl) := by
+  have : (affCl a b cl).map (eStepV (affM a b M)) = (cl.map (eStepV M)).map (accScale a) := by
+    simp only [affCl, List.map_map, Function.comp_def, eStepV_aff a b ha M hs]
+  simp only [stepV, this, Acc_sum_scale, solveLoading_scale]
+  rfl
+
+theorem finalizeV_aff (a b : Fin D → ℝ) (ha : ∀ d, a d ≠ 0) (M : Model C D rU rV ℝ) (hs : ∀ c d, M.s c d ≠ 0) (cl : List (List (St C D ℝ))) :
+    finalizeV (affM a b M) (affCl a b cl) = finalizeV M cl := by
+  simp only [finalizeV, affCl, List.map_map, Function.comp_def, List.length_map, updateY_aff a b ha M hs]
+
+theorem fnX_aff (a b : Fin D → ℝ) (M : Model C D rU rV ℝ) (st : St C D ℝ) (y : Fin rV → ℝ) (z : Fin C → Fin D → ℝ) (c : Fin C) (d : Fin D) :
+    fnX (affM a b M) (affSt a b st) y z c d = a d * fnX M st y z c d := by
+  have hV : (affM a b M).V = fun c d k => a d * M.V c d k := rfl
+  simp only [fnX]
+  rw [hV, apply_aff]
+  simp only [affSt, affM]; ring
+
+theorem sessAccU_aff (a b : Fin D → ℝ) (ha : ∀ d, a d ≠ 0) (M : Model C D rU rV ℝ) (hs : ∀ c d, M.s c d ≠ 0) (st : St C D ℝ)
+    (y : Fin rV → ℝ) (z : Fin C → Fin D → ℝ) :
+    sessAccU (affM a b M) (affSt a b st) y z = accScale a (sessAccU M st y z) := by
+  have hU : (affM a b M).U = fun c d k => a d * M.U c d k := rfl
+  have hn : (affSt a b st).n = st.n := rfl
+  simp only [sessAccU, accScale, latentX_aff a b ha M hs, FA.idPlusInv, hn]
+  rw [hU, prodN_aff a b ha M hs]
+  simp only [fnX_aff]
+  congr 1
+  funext c d k; ring
+
+theorem eStepU_aff (a b : Fin D → ℝ) (ha : ∀ d, a d ≠ 0) (M : Model C D rU rV ℝ) (hs : ∀ c d, M.s c d ≠ 0) (sts : List (St C D ℝ))
+    (y : Fin rV → ℝ) :
+    eStepU (affM a b M) (sts.map (affSt a b)) y = accScale a (eStepU M sts y) := by
+  simp only [eStepU, List.map_map, Function.comp_def, sessAccU_aff a b ha M hs]
+  rw [← Acc_sum_scale, List.map_map]
+  rfl
+
+theorem stepU_aff (a b : Fin D → ℝ) (ha : ∀ d, a d ≠ 0) (M : Model C D rU rV ℝ) (hs : ∀ c d, M.s c d ≠ 0) (cl : List (List (St C D ℝ)))
+    (ys : List (Fin rV → ℝ)) :
+    stepU (affM a b M) (affCl a b cl) ys = affM a b (stepU M cl ys) := by
+  have : ((affCl a b cl).zip ys).map (fun p => eStepU (affM a b M) p.1 p.2) = ((cl.zip ys).map fun p => eStepU M p.1 p.2).map (accScale a) := by
+    simp only [affCl, List.zip_map_left, List.map_map, Function.comp_def, Prod.map, id, eStepU_aff a b ha M hs]
+  simp only [stepU]
+  rw [show ((affCl a b cl).zip ys).map (fun x => match x with | (sts, y) => eStepU (affM a b M) sts y)
+      = ((affCl a b cl).zip ys).map (fun p => eStepU (affM a b M) p.1 p.2) from rfl, this,
+    show ((cl.zip ys).map fun x => match x with | (sts, y) => eStepU M sts y) = (cl.zip ys).map (fun p => eStepU M p.1 p.2) from rfl,
+    Acc_sum_scale, solveLoading_scale]
+  rfl
+
+theorem finalizeU_aff (a b : Fin D → ℝ) (ha : ∀ d, a d ≠ 0) (M : Model C D rU rV ℝ) (hs : ∀ c d, M.s c d ≠ 0) (cl : List (List (St C D ℝ)))
+    (ys : List (Fin rV → ℝ)) :
+    finalizeU (affM a b M) (affCl a b cl) ys = finalizeU M cl ys := by
+  simp only [finalizeU, affCl, List.zip_map_left, List.map_map, Function.comp_def, Prod.map, id, latentX_aff a b ha M hs]
+
+theorem fnZ_aff (a b : Fin D → ℝ) (M : Model C D rU rV ℝ) (sts : List (St C D ℝ)) (xs : List (Fin rU → ℝ)) (y : Fin rV → ℝ)
+    (c : Fin C) (d : Fin D) :
+    fnZ (affM a b M) (sts.map (affSt a b)) xs y c d = a d * fnZ M sts xs y c d := by
+  have hV : (affM a b M).V = fun c d k => a d * M.V c d k := rfl
+  simp only [fnZ]
+  rw [fAcc_aff, nAcc_aff, uxTerm_aff, hV, apply_aff]
+  simp only [affM]; ring
+
+/-- accumulators of `D`: `a1` unchanged, `a2` scaled -/
+theorem eStepD_aff (a b : Fin D → ℝ) (ha : ∀ d, a d ≠ 0) (M : Model C D rU rV ℝ) (hs : ∀ c d, M.s c d ≠ 0) (sts : List (St C D ℝ))
+    (xs : List (Fin rU → ℝ)) (y : Fin rV → ℝ) :
+    eStepD (affM a b M) (sts.map (affSt a b)) xs y
+      = ⟨(eStepD M sts xs y).a1, fun c d => a d * (eStepD M sts xs y).a2 c d⟩ := by
+  simp only [eStepD, updateZ_aff a b ha M hs, nAcc_aff, fnZ_aff]
+  congr 1
+  · funext c d
+    simp only [affM]
+    have := ha d; have := hs c d
+    congr 2
+    field_simp
+  · funext c d; ring
+
+theorem stepD_aff (a b : Fin D → ℝ) (ha : ∀ d, a d ≠ 0) (M : Model C D rU rV ℝ) (hs : ∀ c d, M.s c d ≠ 0) (cl : List (List (St C D ℝ)))
+    (xss : List (List (Fin rU → ℝ))) (ys : List (Fin rV → ℝ)) :
+    stepD (affM a b M) (affCl a b cl) xss ys = affM a b (stepD M cl xss ys) := by
+  have hmap : (((affCl a b cl).zip xss).zip ys).map (fun q => eStepD (affM a b M) q.1.1 q.1.2 q.2)
+      = (((cl.zip xss).zip ys).map fun q => eStepD M q.1.1 q.1.2 q.2).map
+          (fun x : AccD C D ℝ => (⟨x.a1, fun c d => a d * x.a2 c d⟩ : AccD C D ℝ)) := by
+    simp only [affCl, List.zip_map_left, List.map_map, Function.comp_def, Prod.map, id, eStepD_aff a b ha M hs]
+  have hsum : ∀ l : List (AccD C D ℝ), AccD.sum (l.map fun x => (⟨x.a1, fun c d => a d * x.a2 c d⟩ : AccD C D ℝ))
+      = ⟨(AccD.sum l).a1, fun c d => a d * (AccD.sum l).a2 c d⟩ := by
+    intro l
+    have e1 : ∀ c d, (AccD.sum (l.map fun x => (⟨x.a1, fun c d => a d * x.a2 c d⟩ : AccD C D ℝ))).a1 c d = (AccD.sum l).a1 c d := by
+      intro c d; simp only [accDSum_a1, List.map_map, Function.comp_def]
+    have e2 : ∀ c d, (AccD.sum (l.map fun x => (⟨x.a1, fun c d => a d * x.a2 c d⟩ : AccD C D ℝ))).a2 c d = a d * (AccD.sum l).a2 c d := by
+      intro c d; simp only [accDSum_a2, List.map_map, Function.comp_def, List.sum_map_mul_left]
+    cases h : AccD.sum (l.map fun x => (⟨x.a1, fun c d => a d * x.a2 c d⟩ : AccD C D ℝ))
+    rw [h] at e1 e2
+    simp only [AccD.mk.injEq]
+    exact ⟨funext fun c => funext fun d => e1 c d, funext fun c => funext fun d => e2 c d⟩
+  simp only [stepD]
+  rw [show (((affCl a b cl).zip xss).zip ys).map (fun x => match x with | ((sts, xs), y) => eStepD (affM a b M) sts xs y)
+      = (((affCl a b cl).zip xss).zip ys).map (fun q => eStepD (affM a b M) q.1.1 q.1.2 q.2) from rfl, hmap, hsum,
+    show (((cl.zip xss).zip ys).map fun x => match x with | ((sts, xs), y) => eStepD M sts xs y)
+      = ((cl.zip xss).zip ys).map (fun q => eStepD M q.1.1 q.1.2 q.2) from rfl]
+  simp only [affM, Model.mk.injEq, true_and]
+  funext c d; ring
+
+theorem affM_s_ne (a b : Fin D → ℝ) (M : Model C D rU rV ℝ) : (affM a b M).s = fun c d => a d * a d * M.s c d := rfl
+
+/-- the variances of the model are not touched by any training step -/
+theorem stepV_s (M : Model C D rU rV ℝ) (cl) : (stepV M cl).s = M.s := rfl
+theorem stepU_s (M : Model C D rU rV ℝ) (cl ys) : (stepU M cl ys).s = M.s := rfl
+theorem stepD_s (M : Model C D rU rV ℝ) (cl xss ys) : (stepD M cl xss ys).s = M.s := rfl
+
+theorem iter_s {f : Model C D rU rV ℝ → Model C D rU rV ℝ} (hf : ∀ M, (f M).s = M.s) (k : ℕ) (M : Model C D rU rV ℝ) :
+    (iter f k M).s = M.s := by
+  induction k generalizing M with
+  | zero => rfl
+  | succ k ih => simp only [iter, ih, hf]
+
+theorem iter_aff (a b : Fin D → ℝ) (f g : Model C D rU rV ℝ → Model C D rU rV ℝ) (s0 : Fin C → Fin D → ℝ)
+    (hstep : ∀ M : Model C D rU rV ℝ, M.s = s0 → f (affM a b M) = affM a b (g M)) (hpres : ∀ M, (g M).s = M.s)
+    (n : ℕ) (M : Model C D rU rV ℝ) (hM : M.s = s0) : iter f n (affM a b M) = affM a b (iter g n M) := by
+  induction n generalizing M with
+  | zero => rfl
+  | succ n ih =>
+    simp only [iter]
+    rw [hstep M hM]
+    exact ih _ (by rw [hpres, hM])
+
+/-- `jfaFit` without the materialisation steps (they are the identity on values) -/
+theorem jfaFit_spec (M0 : Model C D rU rV ℝ) (cl : List (List (St C D ℝ))) (k : ℕ) :
+    jfaFit M0 cl k =
+      (let M1 := iter (fun M => stepV M cl) k M0
+       let ys := finalizeV M1 cl
+       let M2 := iter (fun M => stepU M cl ys) k M1
+       let xss := finalizeU M2 cl ys
+       iter (fun M => stepD M cl xss ys) k M2) := by
+  have hv : ∀ {n : ℕ} (f : Fin n → ℝ), (let v := Vector.ofFn f; fun i : Fin n => v[i]) = f := by
+    intro n f; funext i; simp
+  simp only [jfaFit, materialize_eq, hv, List.map_id']
+
+/-- **JFA training is equivariant**: training on the transformed features from the transformed
+initial model gives the transformed model (UBM means / variances and the rows of `U`, `V`, `D` follow
+the features), for all three phases and any number of iterations -/
+theorem C15_jfa_training_equivariant (a b : Fin D → ℝ) (ha : ∀ d, a d ≠ 0) (M0 : Model C D rU rV ℝ) (hs : ∀ c d, M0.s c d ≠ 0)
+    (cl : List (List (St C D ℝ))) (k : ℕ) :
+    jfaFit (affM a b M0) (affCl a b cl) k = affM a b (jfaFit M0 cl k) := by
+  rw [jfaFit_spec, jfaFit_spec]
+  simp only
+  -- V phase
+  rw [iter_aff a b _ (fun M => stepV M cl) M0.s (fun M hM => stepV_aff a b ha M (by rw [hM]; exact hs) cl) (fun M => stepV_s M cl) k M0 rfl]
+  set M1 := iter (fun M => stepV M cl) k M0 with hM1
+  have hs1 : M1.s = M0.s := iter_s (fun M => stepV_s M cl) k M0
+  have hs1' : ∀ c d, M1.s c d ≠ 0 := by rw [hs1]; exact hs
+  rw [finalizeV_aff a b ha M1 hs1']
+  set ys := finalizeV M1 cl
+  rw [iter_aff a b _ (fun M => stepU M cl ys) M0.s (fun M hM => stepU_aff a b ha M (by rw [hM]; exact hs) cl ys) (fun M => stepU_s M cl ys) k M1 hs1]
+  set M2 := iter (fun M => stepU M cl ys) k M1 with hM2
+  have hs2 : M2.s = M0.s := by rw [iter_s (fun M => stepU_s M cl ys) k M1, hs1]
+  have hs2' : ∀ c d, M2.s c d ≠ 0 := by rw [hs2]; exact hs
+  rw [finalizeU_aff a b ha M2 hs2']
+  set xss := finalizeU M2 cl ys
+  exact iter_aff a b _ (fun M => stepD M cl xss ys) M0.s (fun M hM => stepD_aff a b ha M (by rw [hM]; exact hs) cl xss ys) (fun M => stepD_s M cl xss ys) k M2 hs2
+
+theorem eStepIsv_aff (a b : Fin D → ℝ) (ha : ∀ d, a d ≠ 0) (M : Model C D rU rV ℝ) (hs : ∀ c d, M.s c d ≠ 0) (sts : List (St C D ℝ)) :
+    eStepIsv (affM a b M) (sts.map (affSt a b)) = accScale a (eStepIsv M sts) := by
+  have hU : (affM a b M).U = fun c d k => a d * M.U c d k := rfl
+  have hxs : ((sts.map (affSt a b)).map fun st => latentX (affM a b M) st (fun _ => 0) zeroZ) = sts.map fun st => latentX M st (fun _ => 0) zeroZ := by
+    rw [List.map_map]
+    exact List.map_congr_left fun st _ => latentX_aff a b ha M hs st _ _
+  simp only [eStepIsv, hxs, updateZ_aff a b ha M hs]
+  rw [← Acc_sum_scale, List.zip_map_left, List.map_map, List.map_map]
+  congr 1
+  apply List.map_congr_left
+  intro p _
+  simp only [Function.comp_def, Prod.map, id, accScale, FA.idPlusInv]
+  have hn : (affSt a b p.1).n = p.1.n := rfl
+  rw [hn, hU, prodN_aff a b ha M hs]
+  simp only [fnX_aff]
+  congr 1
+  funext c d k; ring
+
+theorem stepIsv_aff (a b : Fin D → ℝ) (ha : ∀ d, a d ≠ 0) (M : Model C D rU rV ℝ) (hs : ∀ c d, M.s c d ≠ 0) (cl : List (List (St C D ℝ))) :
+    stepIsv (affM a b M) (affCl a b cl) = affM a b (stepIsv M cl) := by
+  have : (affCl a b cl).map (eStepIsv (affM a b M)) = (cl.map (eStepIsv M)).map (accScale a) := by
+    simp only [affCl, List.map_map, Function.comp_def, eStepIsv_aff a b ha M hs]
+  simp only [stepIsv, this, Acc_sum_scale, solveLoading_scale]
+  rfl
+
+/-- **ISV training is equivariant** -/
+theorem C15_isv_training_equivariant (a b : Fin D → ℝ) (ha : ∀ d, a d ≠ 0) (M0 : Model C D rU rV ℝ) (hs : ∀ c d, M0.s c d ≠ 0)
+    (cl : List (List (St C D ℝ))) (k : ℕ) :
+    isvFit (affM a b M0) (affCl a b cl) k = affM a b (isvFit M0 cl k) := by
+  simp only [isvFit, materialize_eq]
+  exact iter_aff a b _ (fun M => stepIsv M cl) M0.s (fun M hM => stepIsv_aff a b ha M (by rw [hM]; exact hs) cl) (fun M => rfl) k M0 rfl
+end TrainAffine
+
+/-! ### i-vector training (fixed covariances) follows the features -/
+section IVAffine
+open BobEM.IV
+variable {R : ℕ}
+
+def affIV (a b : Fin D → ℝ) (m : IV.Machine C D R ℝ) : IV.Machine C D R ℝ :=
+  ⟨fun c d => a d * m.ubmMeans c d + b d, fun c d t => a d * m.T c d t, fun c d => a d * a d * m.sigma c d⟩
+def affG (a b : Fin D → ℝ) (st : IV.GStat C D ℝ) : IV.GStat C D ℝ :=
+  ⟨st.n, fun c d => a d * st.f c d + b d * st.n c, fun c d => a d * a d * st.s c d + 2 * a d * b d * st.f c d + b d * b d * st.n c⟩
+
+theorem iv_materialize_eq (m : IV.Machine C D R ℝ) : IV.materialize m = m := by
+  cases m
+  simp only [IV.materialize, IV.Machine.mk.injEq, true_and]
+  exact ⟨by funext c d t; simp, by funext c d; simp⟩
+
+theorem iv_precision_aff (a b : Fin D → ℝ) (ha : ∀ d, a d ≠ 0) (m : IV.Machine C D R ℝ) (hs : ∀ c d, m.sigma c d ≠ 0) (n : Fin C → ℝ) :
+    IV.precision (affIV a b m) n = IV.precision m n := by
+  funext t u
+  simp only [IV.precision, sumFin_eq, affIV]
+  congr 1
+  refine Finset.sum_congr rfl fun c _ => ?_
+  congr 1
+  refine Finset.sum_congr rfl fun d _ => ?_
+  have := ha d; have := hs c d
+  field_simp
+
+theorem iv_rhs_aff (a b : Fin D → ℝ) (ha : ∀ d, a d ≠ 0) (m : IV.Machine C D R ℝ) (hs : ∀ c d, m.sigma c d ≠ 0) (st : IV.GStat C D ℝ) :
+    IV.rhs (affIV a b m) (affG a b st) = IV.rhs m st := by
+  funext t
+  simp only [IV.rhs, sumFin_eq, affIV, affG]
+  refine Finset.sum_congr rfl fun c _ => Finset.sum_congr rfl fun d _ => ?_
+  have := ha d; have := hs c d
+  field_simp
+  ring
+
+theorem iv_contrib_aff (a b : Fin D → ℝ) (ha : ∀ d, a d ≠ 0) (m : IV.Machine C D R ℝ) (hs : ∀ c d, m.sigma c d ≠ 0) (st : IV.GStat C D ℝ) :
+    (IV.contrib (affIV a b m) (affG a b st)).nsw2 = (IV.contrib m st).nsw2
+      ∧ (IV.contrib (affIV a b m) (affG a b st)).fsw = fun c d t => a d * (IV.contrib m st).fsw c d t := by
+  have hn : (affG a b st).n = st.n := rfl
+  constructor
+  · simp only [IV.contrib, hn, iv_precision_aff a b ha m hs, iv_rhs_aff a b ha m hs]
+  · funext c d t
+    simp only [IV.contrib, hn, iv_precision_aff a b ha m hs, iv_rhs_aff a b ha m hs]
+    simp only [affIV, affG]; ring
+
+theorem iv_eStep_aff (a b : Fin D → ℝ) (ha : ∀ d, a d ≠ 0) (m : IV.Machine C D R ℝ) (hs : ∀ c d, m.sigma c d ≠ 0) (l : List (IV.GStat C D ℝ)) :
+    (IV.eStep (affIV a b m) (l.map (affG a b))).nsw2 = (IV.eStep m l).nsw2
+      ∧ (IV.eStep (affIV a b m) (l.map (affG a b))).fsw = fun c d t => a d * (IV.eStep m l).fsw c d t := by
+  constructor
+  · funext c t u
+    rw [eStep_nsw2, eStep_nsw2, List.map_map]
+    congr 1
+    apply List.map_congr_left
+    intro st _
+    simp only [Function.comp_def, (iv_contrib_aff a b ha m hs st).1]
+  · funext c d t
+    rw [eStep_fsw, eStep_fsw, List.map_map, ← List.sum_map_mul_left]
+    congr 1
+    apply List.map_congr_left
+    intro st _
+    simp only [Function.comp_def, (iv_contrib_aff a b ha m hs st).2]
+
+/-- **one i-vector M-step with fixed covariances is equivariant** (`T` rows follow the features) -/
+theorem iv_mStep_aff (a b : Fin D → ℝ) (m : IV.Machine C D R ℝ) (st st' : IV.Stats C D R ℝ) (floor : ℝ)
+    (h1 : st'.nsw2 = st.nsw2) (h2 : st'.fsw = fun c d t => a d * st.fsw c d t) :
+    IV.mStep (affIV a b m) st' false floor = affIV a b (IV.mStep m st false floor) := by
+  simp only [IV.mStep, h1, h2, affIV, IV.Machine.mk.injEq, true_and, Bool.false_eq_true, if_false, and_true]
+  funext c d t
+  split_ifs
+  · simp only [sumFin_eq, Finset.mul_sum]
+    exact Finset.sum_congr rfl fun u _ => by ring
+  · simp
+
+theorem iv_fit_sigma (m0 : IV.Machine C D R ℝ) (parts : List (List (IV.GStat C D ℝ))) (floor : ℝ) (k : ℕ) :
+    (IV.fit m0 parts false floor k).sigma = m0.sigma := by
+  induction k with
+  | zero => simp [IV.fit, iv_materialize_eq]
+  | succ k ih => simp only [IV.fit, IV.iterate, iv_materialize_eq, IV.mStep, Bool.false_eq_true, if_false, ih]
+
+/-- **i-vector training with fixed covariances is equivariant**: training on the transformed statistics
+from the transformed machine gives the transformed machine, for any partitioning and number of iterations -/
+theorem C15_ivector_training_equivariant (a b : Fin D → ℝ) (ha : ∀ d, a d ≠ 0) (m0 : IV.Machine C D R ℝ) (hs : ∀ c d, m0.sigma c d ≠ 0)
+    (parts : List (List (IV.GStat C D ℝ))) (floor : ℝ) (k : ℕ) :
+    IV.fit (affIV a b m0) (parts.map fun l => l.map (affG a b)) false floor k = affIV a b (IV.fit m0 parts false floor k) := by
+  induction k with
+  | zero => simp [IV.fit, iv_materialize_eq]
+  | succ k ih =>
+    simp only [IV.fit, IV.iterate, iv_materialize_eq, ih]
+    set m := IV.fit m0 parts false floor k with hm
+    have hsm : ∀ c d, m.sigma c d ≠ 0 := by rw [hm, iv_fit_sigma]; exact hs
+    rw [eStep_partition, eStep_partition]
+    have hflat : (parts.map fun l => l.map (affG a b)).flatten = parts.flatten.map (affG a b) := by
+      rw [List.map_flatten]
+    rw [hflat]
+    obtain ⟨e1, e2⟩ := iv_eStep_aff a b ha m hsm parts.flatten
+    exact iv_mStep_aff a b m _ _ floor e1 e2
+end IVAffine
